@@ -264,7 +264,7 @@ _MT = "std::mersenne_twister_engine<"
 
 
 class Interp:
-    def __init__(self, prog, timeout_ms=20000, unwind=8, merge=True, summarise=()):
+    def __init__(self, prog, timeout_ms=20000, unwind=8, merge=True, summarise=("ReactionProp", "Poisson")):
         self.P = prog
         self.pc = []                # decided path condition (list of z3 Bool)
         self.defs = []              # definitional constraints / harness assumptions (never popped)
@@ -276,6 +276,7 @@ class Interp:
         self.frame = {}
         self.this = None
         self.events = []            # RNG draws, clock reads, constructions ... in program order
+        self.event_cond = {}        # index in events -> local condition under which the event happens (merged regions)
         self.safety = []            # failed safety obligations: dict(kind, where, detail, model)
         self.safety_unknown = []
         self.n_safety_checked = 0
@@ -287,11 +288,14 @@ class Interp:
         self.merge = merge
         self.summarise = set(summarise)
         self.fresh_n = 0
+        self.fresh_by = {}
+        self.fn_stack = []
         self.solver_s = 0.0
         self.n_checks = 0
         self.unknown_forks = 0
         self.n_retry_ok = 0
         self.linearize_uniform = True
+        self.lazy_merge = True
         self.uniform_syms = set()
         self.nomerge = set()
         self.havocs = []
@@ -301,7 +305,8 @@ class Interp:
     # ------------------------------------------------------------------ solver plumbing
     def fresh(self, base, sort="real"):
         self.fresh_n += 1
-        name = "%s!%d" % (base, self.fresh_n)
+        k = self.fresh_by[base] = self.fresh_by.get(base, 0) + 1
+        name = "%s!%d" % (base, k)
         return z3.Real(name) if sort == "real" else (z3.Int(name) if sort == "int" else z3.Bool(name))
 
     def assume(self, c):
@@ -389,6 +394,13 @@ class Interp:
             if kind == "D":
                 self._add_pc(cond if val else z3.Not(cond))
             return val
+        if ctx.local and self.lazy_merge:
+            # inside a merge region both sides are explored without a feasibility query: the merged
+            # ITE guards each side by its condition, and safety obligations are decided under the pc
+            ctx.alts.append(ctx.trace[:i] + [("D", False)])
+            ctx.trace.append(("D", True))
+            self._add_pc(cond)
+            return True
         rt, _ = self.check(cond)
         if rt == "unsat":
             ctx.trace.append(("F", False))
@@ -470,10 +482,11 @@ class Interp:
                     self.solver.pop()
                     for dcons in self.defs[ndefs:]:
                         self.solver.add(dcons)
-                if fail is not None or len(self.events) != n_events:
-                    del self.events[n_events:]
+                local_events = self.events[n_events:]
+                del self.events[n_events:]
+                if fail is not None:
                     raise CannotMerge()
-                results.append((local_pc, kind, ret, fin))
+                results.append((local_pc, kind, ret, fin, local_events))
                 work.extend(ctx.alts)
                 if len(results) > 64:
                     raise CannotMerge()
@@ -485,10 +498,15 @@ class Interp:
         kind = results[0][1]
         # merge written locations
         locs = {}
-        for _, _, _, fin in results:
+        for _, _, _, fin, _ in results:
             for key, (o, idx, _) in fin.items():
                 locs[key] = (o, idx)
-        conds = [z3.And(*lp) if lp else z3.BoolVal(True) for lp, _, _, _ in results]
+        conds = [z3.And(*lp) if lp else z3.BoolVal(True) for lp, _, _, _, _ in results]
+        # events of the local paths are kept, each under its local condition
+        for c, (_, _, _, _, evs) in zip(conds, results):
+            for e in evs:
+                self.event_cond[len(self.events)] = c if len(results) > 1 else None
+                self.events.append(e)
         for key, (o, idx) in locs.items():
             if key[0] == 0:
                 pre = o.v
@@ -498,7 +516,7 @@ class Interp:
                 pre = list(o.elems)
             else:
                 pre = o.freed
-            vals = [fin[key][2] if key in fin else pre for _, _, _, fin in results]
+            vals = [fin[key][2] if key in fin else pre for _, _, _, fin, _ in results]
             mv = self._merge_vals(conds, vals)
             if key[0] == 0:
                 o.set(mv)
@@ -562,7 +580,7 @@ class Interp:
         return "%s:%s" % (node.get("_file", "?"), node.get("_line", "?"))
 
     def safety_fail(self, kind, node, detail, model=None):
-        self.safety.append({"kind": kind, "where": self.where(node), "detail": detail,
+        self.safety.append({"kind": kind, "where": self.where(node), "detail": detail, "fn": self.fn_stack[-1] if self.fn_stack else "?",
                             "model": model, "pc": list(self.pc)})
 
     def havoc(self, et, why):
@@ -713,6 +731,7 @@ class Interp:
         saved = (self.frame, self.this)
         self.frame, self.this = frame, this
         self.depth += 1
+        self.fn_stack.append(fdecl.get("name", "?"))
         if self.depth > 60:
             raise Unsupported("call depth")
         try:
@@ -723,6 +742,7 @@ class Interp:
         finally:
             self.frame, self.this = saved
             self.depth -= 1
+            self.fn_stack.pop()
         rt = fdecl["type"]["qualType"].split("(")[0]
         if isinstance(r, Vec) and "&" not in rt:
             r = r.copy()
@@ -1200,7 +1220,10 @@ class Interp:
 
     def e_ConditionalOperator(self, n):
         c, a, b = n["inner"]
-        return self.rvalue(a) if self.truth(self.val(c)) else self.rvalue(b)
+        cv = self.val(c)
+        if not is_sym(cv):
+            return self.rvalue(a) if cv else self.rvalue(b)
+        return self.region(lambda: self.val(a) if self.truth(cv) else self.val(b), n)
 
     def e_ArraySubscriptExpr(self, n):
         base = self.val(n["inner"][0])
@@ -1296,8 +1319,6 @@ class Interp:
     e_CXXTemporaryObjectExpr = e_CXXConstructExpr
 
     def draw_uniform(self):
-        if self.ctx.local:
-            raise CannotMerge()
         u = self.fresh("u")
         self.assume(z3.And(u >= 0, u < 1))
         self.events.append(("uniform", u))
@@ -1308,8 +1329,6 @@ class Interp:
         """u*y for a uniform draw u in [0,1) used only in this product: replaced by a fresh p whose
         range is exactly {u*y : 0 <= u < 1} (sound and complete for properties quantified over u;
         keeps every query linear)."""
-        if self.ctx.local:
-            raise CannotMerge()
         y = self.toreal(y)
         p = self.fresh("uprod")
         self.assume(z3.And(z3.Implies(y > 0, z3.And(p >= 0, p < y)), z3.Implies(y == 0, p == 0),
@@ -1318,8 +1337,6 @@ class Interp:
         return p
 
     def draw_poisson(self, lam, node):
-        if self.ctx.local:
-            raise CannotMerge()
         p = self.fresh("p", "int")
         lam_s = self.toreal(lam)
         # libstdc++: mean 0 returns 0 (the documented precondition mean > 0 is a separate obligation)
@@ -1333,8 +1350,6 @@ class Interp:
         return p
 
     def draw_normal(self, mean, sd, node):
-        if self.ctx.local:
-            raise CannotMerge()
         v = self.fresh("nrm")
         self.events.append(("normal", mean, sd, v, self.where(node)))
         return v
